@@ -502,10 +502,13 @@ func bucketClass(p string) string {
 
 var routePaths = []string{"/", "/a", "/ab", "/abc", "/abcd", "/abc/", "/ABC", "/abc/x", "/abd", "/a/b", "/abc/x/y", "/a/",
 	"/:p", "/ab/:p", "/abc/:p", "/abc/:p?", "/a/:p?", "/a/*", "/*", "/abc/*", "/+", "/abc/+", "/ab-:p", "/a%41", "/ab/:p/x", "/:p/x",
-	"/abc\\:x", "/ab/", "/Ab", "*", "/ab/*", "/a-b", "/a.b", "/abc/:p/:q?"}
+	"/abc\\:x", "/ab/", "/Ab", "*", "/ab/*", "/a-b", "/a.b", "/abc/:p/:q?",
+	// capitals outside ASCII (case-insensitive routing folds ASCII letters; these bytes stay as they are on both sides)
+	"/\u00c4rzte", "/\u00c4rzte/\u00dcbersicht"}
 
 var reqPaths = []string{"/", "/a/", "/a", "/ab", "/abc", "/abcd", "/abc/", "/ABC", "/Abc/X", "/abc/x", "/abd", "/zzz", "/ab/q", "/abc/x/y",
-	"/ab-q", "/a/b", "/a%41", "/aA", "/abc//", "/ab/", "/ab/q/x", "/q/x", "/abc:x", "/Ab", "/a-b", "/a.b", "/abc/q/r", "/a/b/c", "/AB/Q", "/ab/%71"}
+	"/ab-q", "/a/b", "/a%41", "/aA", "/abc//", "/ab/", "/ab/q/x", "/q/x", "/abc:x", "/Ab", "/a-b", "/a.b", "/abc/q/r", "/a/b/c", "/AB/Q", "/ab/%71",
+	"/\u00c4rzte", "/\u00c4rzte/\u00dcbersicht", "/\u00e4rzte", "/\u00c4RZTE", "/%C3%84rzte"}
 
 var defMethods = []string{"GET", "POST", "PUT", "HEAD", "DELETE"}
 var customMethods = []string{"GET", "HEAD", "POST", "PURGE"}
